@@ -197,6 +197,8 @@ Inv_DRIVERS   == Report("DRIVERS", "DRIVERS" \notin bad)
 Inv_SANITIZE  == Report("SANITIZE", "SANITIZE" \notin bad)
 Inv_RAISED    == Report("RAISED", "RAISED" \notin bad)
 Inv_UNKNOWN   == Report("UNKNOWN", "UNKNOWN" \notin bad)
+\* C13 for the pure functions: the call returned (the recorder's watchdog did not fire)
+Inv_HANG      == Report("HANG", ~("hang" \in DOMAIN ev /\ ev.hang))
 
 Done == l > Len(tr.events)
 Accepted == Done => PrintT(<<"DONE", tr.tid, Len(tr.events)>>)
